@@ -1345,3 +1345,81 @@ func checkRemovedDependenciesSeen(p *core.Prog, r *core.Result, rule string) {
 		r.Bad(rule, construct, p.Pos(m.Fn.Pos()), "Evaluate never looks at the dependencies the last execution recorded but the target no longer declares: removing an entry from sources=[...] (or deleting a file matched by glob()) does not re-run the target although its function is handed the list, so the incremental build keeps outputs computed from the removed source where a from-scratch build of the same tree does not")
 	}
 }
+
+// checkTargetPrintThroughLineBuffer (R18.15): the output of the processes a target runs reaches the Print event through
+// the target's line buffer, which holds an unterminated line back. What the target's own print() writes must go the
+// same way: the Print callback of a target's thread (a closure stored into starlark.Thread.Print by a method of
+// *function) writes to a *lineWriter and does not invoke Events.Print itself - otherwise print("x") behind
+// `printf abc` is delivered before "abc", i.e. the target's output is not delivered in order.
+func checkTargetPrintThroughLineBuffer(p *core.Prog, r *core.Result, rule string) {
+	isLineWriter := func(v ssa.Value) bool {
+		v = core.Unwrap(v)
+		if mi, ok := v.(*ssa.MakeInterface); ok {
+			v = mi.X
+		}
+		pt, ok := v.Type().Underlying().(*types.Pointer)
+		if !ok {
+			return false
+		}
+		n, ok := pt.Elem().(*types.Named)
+		return ok && n.Obj().Name() == "lineWriter" && n.Obj().Pkg() != nil && n.Obj().Pkg().Path() == pkgRoot
+	}
+	n := 0
+	for _, fn := range p.ModuleFuncs() {
+		if fn.Pkg == nil || fn.Pkg.Pkg.Path() != pkgRoot || recvNamed(fn) != "function" {
+			continue
+		}
+		core.Instrs(fn, func(in ssa.Instruction) {
+			st, ok := in.(*ssa.Store)
+			if !ok {
+				return
+			}
+			owner, field := core.FieldOf(st.Addr)
+			if owner == nil || field != "Print" || owner.Obj().Name() != "Thread" || owner.Obj().Pkg() == nil || !strings.HasSuffix(owner.Obj().Pkg().Path(), "starlark") {
+				return
+			}
+			n++
+			construct := fmt.Sprintf("%s#thread-print-%d:through-line-buffer", fname(fn), n)
+			mc, ok := st.Val.(*ssa.MakeClosure)
+			var cl *ssa.Function
+			if ok {
+				cl, _ = mc.Fn.(*ssa.Function)
+			} else if f, isF := st.Val.(*ssa.Function); isF {
+				cl = f
+			}
+			if cl == nil {
+				r.Unk(rule, construct, p.InstrPos(st), "the Print callback of the target's thread is not a function literal")
+				return
+			}
+			direct, buffered := false, false
+			for f := range staticClosure(p, cl) {
+				if recvNamed(f) == "lineWriter" {
+					continue
+				}
+				for _, c := range core.Calls(f) {
+					cc := c.Common()
+					if cc.IsInvoke() && cc.Method.Name() == "Print" {
+						if nt, isNamed := cc.Value.Type().(*types.Named); isNamed && nt.Obj().Name() == "Events" {
+							direct = true
+						}
+					}
+					if core.IsMethod(c, pkgRoot, "lineWriter", "Write") {
+						buffered = true
+					}
+					if cal := core.Callee(c); cal != nil && cal.Pkg != nil && cal.Pkg.Pkg.Path() == "fmt" && strings.HasPrefix(cal.Name(), "Fprint") && len(cc.Args) > 0 && isLineWriter(cc.Args[0]) {
+						buffered = true
+					}
+				}
+			}
+			switch {
+			case direct:
+				r.Bad(rule, construct, p.InstrPos(st), "print() of a target goes straight to the Print event while the output of the processes it runs waits in the target's line buffer for its newline: print(\"x\") behind `printf abc` is delivered before \"abc\" - the target's output is not delivered in order")
+			case buffered:
+				r.OK(rule, construct, p.InstrPos(st), "print() of a target is written to the target's line buffer, like the output of its processes")
+			default:
+				r.Unk(rule, construct, p.InstrPos(st), "the Print callback neither writes to a lineWriter nor invokes Events.Print")
+			}
+		})
+	}
+	r.Floor(rule, n, 1, "Print callbacks of target threads")
+}
